@@ -27,6 +27,8 @@ pub struct GenCfg {
     pub families: bool,
     /// dyadic numbers only (exact arithmetic in the CLI comparison)
     pub dyadic: bool,
+    /// chance weights that are integers or dyadic (exactly representable as Gambit rationals)
+    pub rational_weights: bool,
 }
 
 impl GenCfg {
@@ -39,6 +41,7 @@ impl GenCfg {
             generic: false,
             families: true,
             dyadic: false,
+            rational_weights: false,
         }
     }
     pub fn medium() -> Self {
@@ -50,6 +53,7 @@ impl GenCfg {
             generic: false,
             families: true,
             dyadic: false,
+            rational_weights: false,
         }
     }
     pub fn wide() -> Self {
@@ -61,6 +65,7 @@ impl GenCfg {
             generic: true,
             families: false,
             dyadic: false,
+            rational_weights: false,
         }
     }
 }
@@ -168,6 +173,9 @@ pub enum Wt {
 pub fn pick_wt(s: &mut Stream, cfg: &GenCfg) -> Wt {
     if cfg.dyadic {
         return Wt::Dyadic;
+    }
+    if cfg.rational_weights {
+        return if s.bool() { Wt::Int } else { Wt::Dyadic };
     }
     if cfg.generic {
         return Wt::Real;
